@@ -391,6 +391,26 @@ inline void cm(Ctx& c, Rng& r, long forced)
         sh.hwVersion = noNulString(r, len(2));
         sh.swVersion = noNulString(r, len(3));
         sh.vendorData = r.bytes(forced >= 0 ? static_cast<size_t>(forced % 301) : (r.chance(1, 3) ? 0 : r.below(301)));
+        if (forced >= 0 ? (forced % 500 == 7) : r.chance(1, 200))
+        {
+            // length fields with the top bit set (32768 and more): legal, the whole payload still fits 65535 bytes
+            static const size_t big[] = {32766, 32767, 32768, 32769, 40000, 60000};
+            size_t b = big[(forced >= 0 ? static_cast<size_t>(forced / 500) : r.below(6)) % 6];
+            sh.description = sh.description.substr(0, 8);
+            sh.hwVersion = sh.hwVersion.substr(0, 8);
+            sh.swVersion = sh.swVersion.substr(0, 8);
+            if ((forced >= 0 ? forced / 3000 : static_cast<long>(r.below(2))) % 2)
+            {
+                sh.serial = noNulString(r, b > 33000 ? 33000 : b);
+                sh.vendorData = r.bytes(10);
+            }
+            else
+            {
+                sh.serial = sh.serial.substr(0, 8);
+                sh.vendorData = r.bytes(b);
+            }
+            c.count("length_fields_with_top_bit_set");
+        }
         std::vector<uint8_t> vd(sh.vendorData.begin(), sh.vendorData.end());
         // a string_view is a pointer and a length: the byte behind it is not part of the value. Hand the strings over as
         // (0) std::string (NUL behind it), (1) slices of a longer text whose next character is not NUL, (2) views over
@@ -512,6 +532,16 @@ inline void iface(Ctx& c, Rng& r, long forced)
         {
             ni = r.chance(1, 12) ? r.pick<size_t>({255, 1000, 256}) : r.below(41);
             nv = r.chance(1, 3) ? 0 : r.below(301);
+        }
+        if (forced >= 0 ? (forced % 140 == 3) : r.chance(1, 300))
+        {
+            // the largest counts the 16-bit API parameters admit (the payload then exceeds 65535 bytes, which the builder allows)
+            static const size_t bigI[] = {65535, 65534, 65533, 40000, 32768, 65535};
+            static const size_t bigV[] = {0, 5, 65535, 40000, 1, 65534};
+            size_t q = forced >= 0 ? static_cast<size_t>(forced / 140) : r.below(6);
+            ni = bigI[q % 6];
+            nv = bigV[(q + i) % 6];
+            c.count("stream_id_or_vendor_counts_at_the_top_of_their_range");
         }
         sh.streamIds = r.bytes(ni);
         sh.vendorData = r.bytes(nv);
